@@ -103,6 +103,7 @@ func runC04(r *Run) {
 	r.Rule("R3", "PATH.grant-update-after-spend (staking, ics20): with the caller==origin edges deleted, every success exit after the effect passes an error-checked grant update (UpdateStakingAuthorization / UpdateGrantIfNeeded-like wrapper)")
 	r.Rule("R4", "FLOW.granter: for every SaveGrant/DeleteGrant reachable from an approve/revoke/increase/decrease handler, the granter argument traces back (through helper parameters) only to evm.Origin")
 	r.Rule("R6", "PATH.accept-on-spend (staking, ics20): with the caller==origin edges deleted, no success exit of a spend handler is reachable without an error-checked Authorization.Accept(ctx, msg) — directly or through helpers all of whose (non-bypass) success paths call it; Accept is where the grant's validator/channel allow-list and limits are enforced")
+	r.Rule("R7", "FLOW.decoder-coherence: the address an argument decoder returns (the one R1 compares with signer/caller) and the message it returns depend on each other")
 	r.Rule("R5", "FLOW.grant-identity: grant check and grant update of a handler receive the same grantee (contract.CallerAddress) and the same granter value")
 
 	models := wiredPrecompiles(r)
@@ -162,6 +163,17 @@ func runC04(r *Run) {
 					r.Check(w == nil, "R1", oi, P.Pos(instrPos(call)),
 						fmt.Sprintf("effect %s reachable only where the named account equals signer or caller (%d equality edges)", s.Info.String(), len(eq)),
 						fmt.Sprintf("Cosmos-side effect %s is reachable on a path where the account named in calldata was never proven equal to the signer (origin) or the calling contract", s.Info.String()), P.witness(w)...)
+				}
+				// ---- R7: the decoder's returned address belongs to the message it built ----
+				for _, s := range sites {
+					if isAuthzGrantWrite(s.Info) || s.Call.Parent() != h.Fn {
+						continue
+					}
+					if ex, ok := stripValue(argN(s.Call, 1)).(*ssa.Extract); ok {
+						if dc, ok := ex.Tuple.(*ssa.Call); ok && dc.Call.StaticCallee() != nil && strings.Contains(fnPkgPath(dc.Call.StaticCallee()), "/precompiles/") {
+							decoderCoherent(r, "R7", dc.Call.StaticCallee())
+						}
+					}
 				}
 				// ---- R2/R3/R5 for staking and ics20 ----
 				if strings.HasSuffix(m.Rel, "/staking") || strings.HasSuffix(m.Rel, "/ics20") {
